@@ -35,9 +35,12 @@ var (
 	rxFullWordCounter   = regexp.MustCompile(`[\x{3040}-\x{A4CF}]`)
 	rxLetterWordCounter = regexp.MustCompile(`[\x{AC00}-\x{D7AF}]`)
 
-	rxWordMatcher1 = regexp.MustCompile(`(\S*[\w\x{00C0}-\x{1FFF}\x{AC00}-\x{D7AF}]\S*)`)
+	// A word is a run of characters that are not white space. Go's \S only knows the
+	// ASCII white space, so the Unicode spaces (no-break space, em space, ideographic
+	// space, ...) that separate words as well are excluded explicitly.
+	rxWordMatcher1 = regexp.MustCompile(`([^\s\x0B\x{0085}\p{Z}]*[\w\x{00C0}-\x{1FFF}\x{AC00}-\x{D7AF}][^\s\x0B\x{0085}\p{Z}]*)`)
 	rxWordMatcher2 = regexp.MustCompile(`([\x{3040}-\x{A4CF}])`)
-	rxWordMatcher3 = regexp.MustCompile(`(\S*[\w\x{00C0}-\x{1FFF}]\S*)`)
+	rxWordMatcher3 = regexp.MustCompile(`([^\s\x0B\x{0085}\p{Z}]*[\w\x{00C0}-\x{1FFF}][^\s\x0B\x{0085}\p{Z}]*)`)
 )
 
 // WordCounter is object for counting the number of words. For some languages,
